@@ -51,7 +51,7 @@ var gluesigUniverse = [][]gluesigPkgDef{
 }
 
 var gluesigRepoNames = []string{"os", "os2"}
-var gluesigArchs = []string{"x86_64", "aarch64"}
+var gluesigArchs = []string{"x86_64", "aarch64", "armv7"} // the third one only in single-run families (see Gen)
 
 type gluesigApkFile struct {
 	bytes    []byte
@@ -472,6 +472,42 @@ func (gluesigSuite) Gen(r *Rng, i int, tier string) any {
 			run.NewProcess = k == 0 || r.Chance(40)
 			c.Runs = append(c.Runs, run)
 		}
+	case shape < 84:
+		// (a3) three architectures, one run (with more than one sibling, which sibling is read before a failing one
+		// depends on Go's map order; that shows only in what a *later* run finds in memo and cache directory)
+		c.Shape = "sibling3"
+		three := []string{"x86_64", "aarch64", "armv7"}
+		r.Shuffle(3, func(i, j int) { three[i], three[j] = three[j], three[i] })
+		bad := map[string]bool{}
+		if r.Chance(80) {
+			bad[Pick(r, three)] = true
+			if r.Chance(20) {
+				bad[Pick(r, three)] = true
+			}
+		}
+		var serve []int
+		for _, rp := range repos {
+			for _, a := range three {
+				serve = append(serve, g.rev(rp, a, g.sign(!(bad[a] && (rp == 0 || r.Bool())))))
+			}
+		}
+		keys := gluesigKeyA
+		if r.Chance(20) {
+			keys = gluesigGenKeys(r)
+		}
+		op := Pick(r, []string{"plseq", "plseq", "plall", "build", "apk", "apk"})
+		run := g.buildRun(op, three, serve, repos, keys)
+		run.Ignore = r.Chance(6)
+		if op == "apk" {
+			run = g.apkRun(three, serve, repos, keys, true)
+			for j := range run.Apks {
+				if r.Chance(30) {
+					run.Apks[j].Keys = gluesigGenKeys(r)
+				}
+				run.Apks[j].Ignore = r.Chance(10)
+			}
+		}
+		c.Runs = append(c.Runs, run)
 	default:
 		// (e) free mix: the repositories move on between runs, any operation, online / offline
 		c.Shape = "mix"
